@@ -80,6 +80,10 @@ func (c ControlHandler) HandlePing(h ws.Header) error {
 		})
 	}
 
+	if h.Length > ws.MaxControlFramePayloadSize {
+		return ws.ErrProtocolControlPayloadOverflow
+	}
+
 	// In other way reply with Pong frame with copied payload.
 	p := pbytes.GetLen(int(h.Length) + ws.HeaderSize(ws.Header{
 		Length: h.Length,
@@ -147,6 +151,10 @@ func (c ControlHandler) HandleClose(h ws.Header) error {
 		return ClosedError{
 			Code: ws.StatusNoStatusRcvd,
 		}
+	}
+
+	if h.Length > ws.MaxControlFramePayloadSize {
+		return ws.ErrProtocolControlPayloadOverflow
 	}
 
 	// Prepare bytes both for reading reason and sending response.
